@@ -22,16 +22,38 @@ func (r *Realm) lenOf(o *Obj) float64 {
 	return r.ToUint32(lenVal)
 }
 
+// thisObj is step 1 of every 15.4.4 algorithm: ToObject(this value).
+func (r *Realm) thisObj(this Value) *Obj {
+	if this.K == KUndef && r.Dev&DevUndefinedThis != 0 {
+		return r.Global
+	}
+	return r.ToObject(this)
+}
+
 func elemDesc(v Value) Desc { return DataDesc(v, true, true, true) }
 
 // fixResultLength applies the ES2015 correction of the ES5.1 erratum that
 // concat/slice/splice never set the length of the array they create (trailing
 // holes are lost) unless the ES5.1-literal variant is selected.
 func (r *Realm) fixResultLength(a *Obj, n float64) {
+	if r.Dev&DevResultHoles != 0 {
+		r.devFillHoles(a, n)
+		return
+	}
 	if a.props["length"].Value.N != n {
 		r.Touched |= VarResultLength
 		if r.Variant&VarResultLength == 0 {
 			r.Put(a, "length", Num(n), true)
+		}
+	}
+}
+
+func (r *Realm) devFillHoles(a *Obj, n float64) {
+	a.props["length"].Value = Num(n)
+	for k := 0.0; k < n; k++ {
+		r.tick()
+		if a.props[ks(k)] == nil {
+			a.setRaw(ks(k), &Prop{Value: Undefined, W: true, E: true, C: true})
 		}
 	}
 }
@@ -61,7 +83,7 @@ func IsArray(v Value) bool { return v.K == KObj && v.O.Class == "Array" }
 
 // 15.4.4.2
 func (r *Realm) ArrayToString(this Value, _ []Value) Value {
-	array := r.ToObject(this) // 1
+	array := r.thisObj(this)  // 1
 	f := r.Get(array, "join") // 2
 	if !IsCallable(f) {       // 3
 		f = ObjV(r.ObjectProtoToString)
@@ -71,10 +93,10 @@ func (r *Realm) ArrayToString(this Value, _ []Value) Value {
 
 // 15.4.4.3
 func (r *Realm) ArrayToLocaleString(this Value, _ []Value) Value {
-	array := r.ToObject(this) // 1
-	n := r.lenOf(array)       // 2,3
-	sep := ","                // 4
-	if n == 0 {               // 5
+	array := r.thisObj(this) // 1
+	n := r.lenOf(array)      // 2,3
+	sep := ","               // 4
+	if n == 0 {              // 5
 		return Str("")
 	}
 	one := func(e Value) string {
@@ -103,7 +125,7 @@ func (r *Realm) ArrayToLocaleString(this Value, _ []Value) Value {
 
 // 15.4.4.4
 func (r *Realm) ArrayConcat(this Value, args []Value) Value {
-	O := r.ToObject(this)                      // 1
+	O := r.thisObj(this)                       // 1
 	A := r.NewArray(0)                         // 2
 	n := 0.0                                   // 3
 	items := append([]Value{ObjV(O)}, args...) // 4
@@ -130,14 +152,20 @@ func (r *Realm) ArrayConcat(this Value, args []Value) Value {
 
 // 15.4.4.5
 func (r *Realm) ArrayJoin(this Value, args []Value) Value {
-	O := r.ToObject(this) // 1
-	n := r.lenOf(O)       // 2,3
 	sepV := arg(args, 0)
 	if sepV.K == KUndef { // 4
 		sepV = Str(",")
 	}
-	sep := r.ToString(sepV) // 5
-	if n == 0 {             // 6
+	var sep string
+	if r.Dev&DevJoinSepFirst != 0 {
+		sep = r.ToString(sepV)
+	}
+	O := r.thisObj(this) // 1
+	n := r.lenOf(O)      // 2,3
+	if r.Dev&DevJoinSepFirst == 0 {
+		sep = r.ToString(sepV) // 5
+	}
+	if n == 0 { // 6
 		return Str("")
 	}
 	one := func(e Value) string {
@@ -157,9 +185,9 @@ func (r *Realm) ArrayJoin(this Value, args []Value) Value {
 
 // 15.4.4.6
 func (r *Realm) ArrayPop(this Value, _ []Value) Value {
-	O := r.ToObject(this) // 1
-	n := r.lenOf(O)       // 2,3
-	if n == 0 {           // 4
+	O := r.thisObj(this) // 1
+	n := r.lenOf(O)      // 2,3
+	if n == 0 {          // 4
 		r.Put(O, "length", Num(0), true)
 		return Undefined
 	}
@@ -180,7 +208,7 @@ func (r *Realm) ArrayPop(this Value, _ []Value) Value {
 
 // 15.4.4.7
 func (r *Realm) ArrayPush(this Value, args []Value) Value {
-	O := r.ToObject(this)    // 1
+	O := r.thisObj(this)     // 1
 	n := r.lenOf(O)          // 2,3
 	for _, E := range args { // 4,5
 		r.Put(O, ks(n), E, true)
@@ -192,7 +220,7 @@ func (r *Realm) ArrayPush(this Value, args []Value) Value {
 
 // 15.4.4.8
 func (r *Realm) ArrayReverse(this Value, _ []Value) Value {
-	O := r.ToObject(this)       // 1
+	O := r.thisObj(this)        // 1
 	n := r.lenOf(O)             // 2,3
 	middle := math.Floor(n / 2) // 4
 	lower := 0.0                // 5
@@ -208,6 +236,9 @@ func (r *Realm) ArrayReverse(this Value, _ []Value) Value {
 		case lowerExists && upperExists:
 			r.Put(O, lowerP, upperValue, true)
 			r.Put(O, upperP, lowerValue, true)
+		case !lowerExists && upperExists && r.Dev&DevReverseDeleteFirst != 0:
+			r.Delete(O, upperP, true)
+			r.Put(O, lowerP, upperValue, true)
 		case !lowerExists && upperExists:
 			r.Put(O, lowerP, upperValue, true)
 			r.Delete(O, upperP, true)
@@ -217,14 +248,17 @@ func (r *Realm) ArrayReverse(this Value, _ []Value) Value {
 		}
 		lower++
 	}
+	if r.Dev&DevReturnsThisValue != 0 && !(this.K == KUndef && r.Dev&DevUndefinedThis != 0) {
+		return this
+	}
 	return ObjV(O) // 7
 }
 
 // 15.4.4.9
 func (r *Realm) ArrayShift(this Value, _ []Value) Value {
-	O := r.ToObject(this) // 1
-	n := r.lenOf(O)       // 2,3
-	if n == 0 {           // 4
+	O := r.thisObj(this) // 1
+	n := r.lenOf(O)      // 2,3
+	if n == 0 {          // 4
 		r.Put(O, "length", Num(0), true)
 		return Undefined
 	}
@@ -253,7 +287,7 @@ func (r *Realm) relative(v Value, n float64) float64 {
 
 // 15.4.4.10
 func (r *Realm) ArraySlice(this Value, args []Value) Value {
-	O := r.ToObject(this)            // 1
+	O := r.thisObj(this)             // 1
 	A := r.NewArray(0)               // 2
 	n := r.lenOf(O)                  // 3,4
 	k := r.relative(arg(args, 0), n) // 5,6
@@ -305,7 +339,7 @@ func (r *Realm) SortCompare(x, y Value, comparefn Value) float64 {
 
 // 15.4.4.12
 func (r *Realm) ArraySplice(this Value, args []Value) Value {
-	O := r.ToObject(this)                      // 1
+	O := r.thisObj(this)                       // 1
 	A := r.NewArray(0)                         // 2
 	n := r.lenOf(O)                            // 3,4
 	actualStart := r.relative(arg(args, 0), n) // 5,6
@@ -313,7 +347,9 @@ func (r *Realm) ArraySplice(this Value, args []Value) Value {
 	if len(args) < 2 && len(args) > 0 {
 		r.Touched |= VarSpliceOmitted
 	}
-	if len(args) == 1 && r.Variant&VarSpliceOmitted != 0 {
+	if len(args) == 0 && r.Dev&DevSpliceNoArgs != 0 {
+		dc = n - actualStart
+	} else if len(args) == 1 && r.Variant&VarSpliceOmitted != 0 {
 		dc = n - actualStart
 	} else {
 		dc = r.ToInteger(arg(args, 1))
@@ -368,7 +404,7 @@ func (r *Realm) ArraySplice(this Value, args []Value) Value {
 
 // 15.4.4.13
 func (r *Realm) ArrayUnshift(this Value, args []Value) Value {
-	O := r.ToObject(this)          // 1
+	O := r.thisObj(this)           // 1
 	n := r.lenOf(O)                // 2,3
 	argCount := float64(len(args)) // 4
 	for k := n; k > 0; k-- {       // 5,6
@@ -389,9 +425,9 @@ func (r *Realm) ArrayUnshift(this Value, args []Value) Value {
 
 // 15.4.4.14
 func (r *Realm) ArrayIndexOf(this Value, args []Value) Value {
-	O := r.ToObject(this) // 1
-	n := r.lenOf(O)       // 2,3
-	if n == 0 {           // 4
+	O := r.thisObj(this) // 1
+	n := r.lenOf(O)      // 2,3
+	if n == 0 {          // 4
 		return Num(-1)
 	}
 	from := 0.0 // 5
@@ -425,9 +461,9 @@ func (r *Realm) ArrayIndexOf(this Value, args []Value) Value {
 
 // 15.4.4.15
 func (r *Realm) ArrayLastIndexOf(this Value, args []Value) Value {
-	O := r.ToObject(this) // 1
-	n := r.lenOf(O)       // 2,3
-	if n == 0 {           // 4
+	O := r.thisObj(this)                     // 1
+	n := r.lenOf(O)                          // 2,3
+	if n == 0 && r.Dev&DevLastIndexOf == 0 { // 4
 		return Num(-1)
 	}
 	from := n - 1 // 5
@@ -435,7 +471,9 @@ func (r *Realm) ArrayLastIndexOf(this Value, args []Value) Value {
 		from = r.ToInteger(args[1])
 	}
 	var k float64
-	if from >= 0 { // 6
+	if from >= 0 && from == n && r.Dev&DevLastIndexOf != 0 {
+		k = n
+	} else if from >= 0 { // 6
 		k = math.Min(from, n-1) + 0
 	} else { // 7
 		k = n - math.Abs(from)
@@ -456,9 +494,12 @@ func (r *Realm) ArrayLastIndexOf(this Value, args []Value) Value {
 // iterate is the common skeleton of 15.4.4.16-20: steps 1-5 and the loop of
 // step 7 (6 for filter/map is done by the caller through pre()).
 func (r *Realm) iterate(this Value, args []Value, pre func(O *Obj, n float64), body func(O *Obj, k float64, kValue, res Value) (stop bool)) {
-	O := r.ToObject(this) // 1
-	n := r.lenOf(O)       // 2,3
+	O := r.thisObj(this) // 1
 	cb := arg(args, 0)
+	if r.Dev&DevCallableFirst != 0 && !IsCallable(cb) {
+		throwType("callbackfn is not callable")
+	}
+	n := r.lenOf(O)      // 2,3
 	if !IsCallable(cb) { // 4
 		throwType("callbackfn is not callable")
 	}
@@ -515,11 +556,17 @@ func (r *Realm) ArrayForEach(this Value, args []Value) Value {
 func (r *Realm) ArrayMap(this Value, args []Value) Value {
 	var A *Obj
 	r.iterate(this, args, func(_ *Obj, n float64) {
+		if n > 1<<20 && r.Dev&DevMapEagerAlloc != 0 {
+			panic(Budget{})
+		}
 		A = r.NewArray(uint32(n)) // 6: new Array(len)
 	}, func(_ *Obj, k float64, _, res Value) bool {
 		r.DefineOwnProperty(A, ks(k), elemDesc(res), false)
 		return false
 	})
+	if r.Dev&DevResultHoles != 0 {
+		r.devFillHoles(A, A.props["length"].Value.N)
+	}
 	return ObjV(A)
 }
 
@@ -541,9 +588,12 @@ func (r *Realm) ArrayFilter(this Value, args []Value) Value {
 
 // 15.4.4.21
 func (r *Realm) ArrayReduce(this Value, args []Value) Value {
-	O := r.ToObject(this) // 1
-	n := r.lenOf(O)       // 2,3
+	O := r.thisObj(this) // 1
 	cb := arg(args, 0)
+	if r.Dev&DevCallableFirst != 0 && !IsCallable(cb) {
+		throwType("callbackfn is not callable")
+	}
+	n := r.lenOf(O)      // 2,3
 	if !IsCallable(cb) { // 4
 		throwType("callbackfn is not callable")
 	}
@@ -566,7 +616,10 @@ func (r *Realm) ArrayReduce(this Value, args []Value) Value {
 			k++
 		}
 		if !kPresent {
-			throwType("reduce of empty array with no initial value")
+			if r.Dev&DevReduceNoElement == 0 {
+				throwType("reduce of empty array with no initial value")
+			}
+			acc = Undefined
 		}
 	}
 	for ; k < n; k++ { // 9
@@ -582,9 +635,12 @@ func (r *Realm) ArrayReduce(this Value, args []Value) Value {
 
 // 15.4.4.22
 func (r *Realm) ArrayReduceRight(this Value, args []Value) Value {
-	O := r.ToObject(this) // 1
-	n := r.lenOf(O)       // 2,3
+	O := r.thisObj(this) // 1
 	cb := arg(args, 0)
+	if r.Dev&DevCallableFirst != 0 && !IsCallable(cb) {
+		throwType("callbackfn is not callable")
+	}
+	n := r.lenOf(O)      // 2,3
 	if !IsCallable(cb) { // 4
 		throwType("callbackfn is not callable")
 	}
@@ -607,7 +663,10 @@ func (r *Realm) ArrayReduceRight(this Value, args []Value) Value {
 			k--
 		}
 		if !kPresent {
-			throwType("reduceRight of empty array with no initial value")
+			if r.Dev&DevReduceNoElement == 0 {
+				throwType("reduceRight of empty array with no initial value")
+			}
+			acc = Undefined
 		}
 	}
 	for ; k >= 0; k-- { // 9
@@ -615,7 +674,11 @@ func (r *Realm) ArrayReduceRight(this Value, args []Value) Value {
 		Pk := ks(k)
 		if r.HasProperty(O, Pk) {
 			kValue := r.Get(O, Pk)
-			acc = r.Call(cb, Undefined, acc, kValue, Num(k), ObjV(O))
+			idx := Num(k)
+			if r.Dev&DevReduceRightIndex != 0 {
+				idx = Str(Pk)
+			}
+			acc = r.Call(cb, Undefined, acc, kValue, idx, ObjV(O))
 		}
 	}
 	return acc // 10
